@@ -15,7 +15,7 @@
                     with (i) other restores still run, (ii) nothing diverted, (iii) restartable) *)
 From Coq Require Import String List NArith ZArith Ascii Bool Arith.
 From SV Require Import Lib.Bytes Model.FwLife Model.FwLifeSpec Proofs.FwLife_lemmas Proofs.FwLife_general
-  Proofs.FwLife_gen_owner.
+  Proofs.FwLife_gen_owner Proofs.FwLife_gen_pf.
 From SV Require Import Model.FwLog Proofs.FwLog_lemmas.
 Import ListNotations.
 
@@ -287,12 +287,72 @@ Theorem c04_pf_freebsd_asfound_refuted :
 Proof. vm_compute. repeat split. Qed.
 Print Assumptions c04_pf_freebsd_asfound_refuted.
 
-(* pf, repaired flag: identity up to the anchor calls pf.py appends to the main ruleset and never
-   removes.  Full statement (not proved in general; pf is not validated against a real kernel): *)
+(* pf, repaired flag (Proofs/FwLife_gen_pf.v) — GENERAL: every pf flavour (FreeBSD, OpenBSD, Darwin),
+   every configuration (either or both families, any ports, any rule text), every cut of the dialogue
+   (before GO, between HOST lines, a non-HOST line), NO failing command, every start state that is
+   pf_start_ok: anchor names in the main ruleset contain no newline (what `pfctl -s all` prints one
+   per line), ports printed without newline, no anchor named for the session's ports yet, and on Darwin
+   the next two reference tokens are not outstanding.  Then the session is the identity on
+   everything but the anchor CALLS pf.py appends to the main ruleset and never removes:
+   iptables/nft untouched, module state, enabled state (`pfctl -e/-d` bookkeeping of
+   _pf_context['started_by_sshuttle'], parsed from 'INFO:\nStatus: Disabled' — the parse is proved exact),
+   Darwin's -E/-X tokens, and the anchors are as before; the main ruleset and `set skip on lo` are as
+   before on FreeBSD, and elsewhere whenever lo is not skipped.  (With `set skip on lo` OpenBSD/Darwin
+   REPLACE the main ruleset by 'match/pass on lo' and never restore it — pf.py:274-279, 353-359 — see
+   c04_pf_identity_full_refuted.)  Not covered in general: exits with a failing pfctl/ioctl command. *)
+Theorem c04_pf_identity : forall os c cut s0,
+  c_method c = MPf os -> c_repaired c = true -> c_udp c = false -> pf_start_ok os c s0 ->
+  let sf := r_final (session c cut no_faults s0) in
+  sf = with_pf s0 (k_pf sf) /\
+  pf_loaded (k_pf sf) = pf_loaded (k_pf s0) /\ pf_on (k_pf sf) = pf_on (k_pf s0) /\
+  pf_refs (k_pf sf) = pf_refs (k_pf s0) /\ pf_anchors (k_pf sf) = pf_anchors (k_pf s0) /\
+  (is_freebsd os || negb (pf_skip_lo (k_pf s0)) = true ->
+   pf_main (k_pf sf) = pf_main (k_pf s0) /\ pf_skip_lo (k_pf sf) = pf_skip_lo (k_pf s0)).
+Proof. exact pf_identity. Qed.
+Print Assumptions c04_pf_identity.
+
+Theorem c04_pf_identity_but_calls : forall os c cut s0,
+  c_method c = MPf os -> c_repaired c = true -> c_udp c = false -> pf_start_ok os c s0 ->
+  is_freebsd os || negb (pf_skip_lo (k_pf s0)) = true ->
+  pf_same_but_calls (k_pf (r_final (session c cut no_faults s0))) (k_pf s0) = true.
+Proof. exact pf_identity_bool. Qed.
+Print Assumptions c04_pf_identity_but_calls.
+
+(* `pfctl -s all` is parsed exactly (pf.py:67): for every pf state whose anchor names contain no newline *)
+Theorem c04_pf_status_parse_exact : forall p,
+  calls_ok (pf_calls p) = true ->
+  is_infix (bs "INFO:" ++ ["010"%char] ++ bs "Status: Disabled") (join_lines (pf_status_lines p)) = negb (pf_enabled p).
+Proof. exact dis_parse_exact. Qed.
+Print Assumptions c04_pf_status_parse_exact.
+
+Example c04_pf_hyps_satisfiable :
+  pf_start_ok FreeBSD (cfg_pf FreeBSD true) ex_pf_state /\ pf_start_ok OpenBSD (cfg_pf OpenBSD true) ex_pf_state /\
+  pf_start_ok Darwin (cfg_pf Darwin true) ex_pf_state.
+Proof.
+  assert (G : forall os, pf_start_ok os (cfg_pf os true) ex_pf_state).
+  { intro os. split; [vm_compute; reflexivity|]. split.
+    - intros f On. destruct f; [vm_compute in On; discriminate|]. split; vm_compute; reflexivity.
+    - intros _. split; vm_compute; intros []. }
+  split; [apply G | split; apply G].
+Qed.
+
+(* The statement without hypotheses on the start state is FALSE: on Darwin with `set skip on lo` in force the
+   fault-free session leaves a different main ruleset behind (and lo no longer skipped). *)
 Definition c04_pf_identity_full : Prop :=
   forall os c cut s0, c_method c = MPf os -> c_repaired c = true -> c_udp c = false ->
     pf_same_but_calls (k_pf (r_final (session c cut no_faults s0)))
                       (k_pf (erase c s0)) = true.
+
+Definition ex_pf_skip_state : kstate :=
+  mkK builtin_nat builtin_mangle builtin_nat builtin_mangle []
+      (mkPf true false [] 1 true [bs "block all"] [(false, bs "com.apple")] [(bs "com.apple", bs "pass all")]).
+
+Theorem c04_pf_identity_full_refuted : ~ c04_pf_identity_full.
+Proof.
+  intro H. specialize (H Darwin (cfg_pf Darwin true) 7 ex_pf_skip_state eq_refl eq_refl eq_refl).
+  vm_compute in H. discriminate.
+Qed.
+Print Assumptions c04_pf_identity_full_refuted.
 
 Theorem c04_pf_identity_partial : forall cut, cut <= 7 ->
   forallb (fun os => pf_same_but_calls (k_pf (r_final (session (cfg_pf os true) cut no_faults ex_pf_state)))
